@@ -148,7 +148,7 @@ def handleSwrite (args : List String) : String :=
     | .ok .badAddress => "bad-address"
     | .ok .notAligned => "not-aligned"
     | .ok (.wrote count first ws) =>
-      "count=" ++ toString count ++ " first=" ++ natHex first ++ " nz=" ++
+      "count=" ++ toString count ++ " first=" ++ natHex (first / c.bytesPerAddress) ++ " nz=" ++
         dumpNonZero (ws.reverse.flatMap (fun (a, v) => bytesOf c.bigEndian step a v))
   | _ => "bad-op"
 
